@@ -315,11 +315,28 @@ theorem ownsNodes_append (a b : List HNode) : ownsNodes sz (a ++ b) = ownsNodes 
   induction a with
   | nil => simp [ownsNodes]
   | cons t ts ih =>
-    obtain ⟨node, ⟨n, nl⟩, ⟨v, vl⟩⟩ := t
+    obtain ⟨node, n, v⟩ := t
     simp [ownsNodes, ih]
 
+/-- `string_to_c_char` on one string: the heap gains what the (possibly NULL) string owns -/
+theorem cstrOpt_spec (h : Heap) (l : Option Nat) :
+    (cstrOpt h l).1.faults = h.faults ∧ (cstrOpt h l).1.liveList = h.liveList ++ ownsStr (cstrOpt h l).2 := by
+  cases l with
+  | none => simp [cstrOpt, ownsStr]
+  | some len => simp [cstrOpt, cstrNew, ownsStr, alloc_live, alloc_faults]
+
+theorem cstrOptFree_spec {h : Heap} {x : Option (Nat × Nat)} {R : List Own}
+    (hp : List.Perm h.liveList (ownsStr x ++ R)) :
+    (cstrOptFree h x).faults = h.faults ∧ List.Perm (cstrOptFree h x).liveList R := by
+  cases x with
+  | none => simpa [cstrOptFree, ownsStr] using hp
+  | some p =>
+    obtain ⟨id, len⟩ := p
+    simp only [ownsStr, List.cons_append, List.nil_append] at hp
+    exact dealloc_step (x := (id, len + 1, Kind.cstr)) hp
+
 /-- `http_headers_to_header_map`: the heap gains exactly what the new nodes own -/
-theorem headerList_spec : ∀ (l : List (Nat × Nat)) (h : Heap) (acc : List HNode),
+theorem headerList_spec : ∀ (l : List (Option Nat × Option Nat)) (h : Heap) (acc : List HNode),
     (headerList sz h l acc).1.faults = h.faults ∧
       ∃ new, (headerList sz h l acc).2 = new ++ acc ∧
         List.Perm (headerList sz h l acc).1.liveList (h.liveList ++ ownsNodes sz new) := by
@@ -329,21 +346,20 @@ theorem headerList_spec : ∀ (l : List (Nat × Nat)) (h : Heap) (acc : List HNo
   | cons p rest ih =>
     intro h acc
     obtain ⟨nl, vl⟩ := p
-    simp only [headerList, cstrNew, boxNew]
-    obtain ⟨hf, new', hn, hp⟩ := ih ((((h.alloc .cstr (nl + 1)).1.alloc .cstr (vl + 1)).1.alloc .hnode (sz .hnode)).1)
-      (((((h.alloc .cstr (nl + 1)).1.alloc .cstr (vl + 1)).1.alloc .hnode (sz .hnode)).2,
-        ((h.alloc .cstr (nl + 1)).2, nl), (((h.alloc .cstr (nl + 1)).1.alloc .cstr (vl + 1)).2, vl)) :: acc)
-    refine ⟨by rw [hf]; rfl, new' ++ [((((h.alloc .cstr (nl + 1)).1.alloc .cstr (vl + 1)).1.alloc .hnode (sz .hnode)).2,
-        ((h.alloc .cstr (nl + 1)).2, nl), (((h.alloc .cstr (nl + 1)).1.alloc .cstr (vl + 1)).2, vl))], by rw [hn]; simp, ?_⟩
+    simp only [headerList, boxNew]
+    obtain ⟨f1, l1⟩ := cstrOpt_spec h nl
+    obtain ⟨f2, l2⟩ := cstrOpt_spec (cstrOpt h nl).1 vl
+    obtain ⟨hf, new', hn, hp⟩ := ih (((cstrOpt (cstrOpt h nl).1 vl).1.alloc .hnode (sz .hnode)).1)
+      ((((cstrOpt (cstrOpt h nl).1 vl).1.alloc .hnode (sz .hnode)).2, (cstrOpt h nl).2, (cstrOpt (cstrOpt h nl).1 vl).2) :: acc)
+    refine ⟨by rw [hf, alloc_faults, f2, f1], new' ++ [(((cstrOpt (cstrOpt h nl).1 vl).1.alloc .hnode (sz .hnode)).2,
+        (cstrOpt h nl).2, (cstrOpt (cstrOpt h nl).1 vl).2)], by rw [hn]; simp, ?_⟩
     refine hp.trans ?_
-    rw [alloc_live, alloc_live, alloc_live, ownsNodes_append]
+    rw [alloc_live, l2, l1, ownsNodes_append]
     simp only [ownsNodes, List.append_nil, List.append_assoc]
     apply List.Perm.append_left
-    have := @List.perm_append_comm _ [((h.alloc .cstr (nl + 1)).2, nl + 1, Kind.cstr),
-      (((h.alloc .cstr (nl + 1)).1.alloc .cstr (vl + 1)).2, vl + 1, Kind.cstr),
-      ((((h.alloc .cstr (nl + 1)).1.alloc .cstr (vl + 1)).1.alloc .hnode (sz .hnode)).2, sz .hnode, Kind.hnode)]
-      (ownsNodes sz new')
-    simpa using this
+    have := @List.perm_append_comm _ (ownsStr (cstrOpt h nl).2 ++ (ownsStr (cstrOpt (cstrOpt h nl).1 vl).2 ++
+      [(((cstrOpt (cstrOpt h nl).1 vl).1.alloc .hnode (sz .hnode)).2, sz .hnode, Kind.hnode)])) (ownsNodes sz new')
+    simpa [List.append_assoc] using this
 
 /-- the caller frees a header list: the heap loses exactly what the nodes own -/
 theorem headerListFree_spec : ∀ (nodes : List HNode) (h : Heap) (R : List Own),
@@ -354,12 +370,13 @@ theorem headerListFree_spec : ∀ (nodes : List HNode) (h : Heap) (R : List Own)
   | nil => intro h R hp; exact ⟨rfl, by simpa [headerListFree, ownsNodes] using hp⟩
   | cons t ts ih =>
     intro h R hp
-    obtain ⟨node, ⟨n, nl⟩, ⟨v, vl⟩⟩ := t
-    simp only [ownsNodes, List.cons_append, List.nil_append] at hp
+    obtain ⟨node, n, v⟩ := t
+    simp only [ownsNodes, List.append_assoc] at hp
     have hnode : (node, sz .hnode, Kind.hnode) ∈ h.liveList := hp.symm.subset (by simp)
-    simp only [headerListFree, use_live hnode, cstrFree, boxDrop]
-    obtain ⟨f1, p1⟩ := dealloc_step (x := (n, nl + 1, Kind.cstr)) hp
-    obtain ⟨f2, p2⟩ := dealloc_step (x := (v, vl + 1, Kind.cstr)) p1
+    simp only [headerListFree, use_live hnode, boxDrop]
+    obtain ⟨f1, p1⟩ := cstrOptFree_spec hp
+    obtain ⟨f2, p2⟩ := cstrOptFree_spec p1
+    simp only [List.cons_append, List.nil_append] at p2
     obtain ⟨f3, p3⟩ := dealloc_step (x := (node, sz .hnode, Kind.hnode)) p2
     obtain ⟨f4, p4⟩ := ih _ R p3
     exact ⟨by rw [f4, f3, f2, f1], p4⟩
@@ -558,6 +575,12 @@ theorem step_inv {st : State} (inv : Inv sz st) (c : Call) (hpre : pre st c = tr
       refine inv.acquire sz _ _ hf ?_ trivial
       simp only [owns, hn, List.append_nil]
       exact hl
+  | hmapNew out =>
+    simp only [step]
+    obtain ⟨hf, new, hn, hl⟩ := headerList_spec sz out st.heap []
+    refine inv.acquire sz _ _ hf ?_ trivial
+    simp only [owns, hn, List.append_nil]
+    exact hl
   | hlistFree s =>
     obtain ⟨sl, hs, hr, hp, hget⟩ := holds_spec hpre
     obtain ⟨nodes, hb⟩ := isHlist_spec hp
